@@ -55,7 +55,7 @@ func H_c15(p []int) {
 	toks := p[2 : 2+ntok]
 	opk := p[2+ntok:]
 	bs := vBytes(n)
-	vAssume(validUTF8(bs))
+	vAssumeValidUTF8(bs)
 	s := string(bs)
 	format := ""
 	for k, t := range toks {
